@@ -1,0 +1,11 @@
+//go:build verif
+
+// Contracts for deductive verification (comment-only; compiled only with -tags verif).
+// Syntax and semantics: /verif/DESIGN.md §2.6 and Appendix A.
+
+package keeper
+
+//@ func (Keeper) isFinalizedWithConfig
+//@   ensures err == nil                                                                          // C05: never_errors
+//@   ensures ret0 == isFinal(now, output.L1BlockTime, bridgeConfig.FinalizationPeriod)          // C05: window
+//@   assigns \nothing
